@@ -164,6 +164,7 @@ def modOps (s : ModSt) (ln : Nat) (t : List String) : Option (ModSt × List Stri
                 out ln "work" (fTok st.accWork), out ln "nti" (iTok st.tiOut.length),
                 out ln "ti" (fsTok (st.tiOut.flatMap fun x => [x.1, x.2]))])
     | _ => some (s, [])
+  | ["M.tsf", name, n] => some ({ s with m := { s.m with tsf := (name, iOfTok n) :: s.m.tsf } }, [])
   | ["h.dump", name] =>
     match findBias s name with
     | some (.hist _ g _ data) => some (s, [out ln "nx" (isTok g.nx), out ln "data" (fsTok data)])
